@@ -778,7 +778,7 @@ func enumItBoundaries(yield func(itCase) bool) {
 func init() {
 	RegisterRapid("C15_generated",
 		"rapid: one of the 13 iterators with generated parameters (n up to 7/8, k up to n+3, factor lists with -1/0/1 entries, multiplicity vectors with zeros and the empty vector; predicates: hash(seed,prefix) mod d != 0 with d in {1,2,3,5}, accept-all, reject-all, no-fixed-point, bounded-descent, bounded-sum; TopologicalSorts: generated sub-relations of i<j at five densities). Oracle: brute-force enumeration of the advertised family in the documented order (ordered comparison where an order is documented, duplicate-free set otherwise); Next is driven at most family+3 times so over-production is caught without timing; three further Next calls after exhaustion must be false for the parameter-only iterators. Non-trivial: family size >= 2 or a boundary parameter; for predicate iterators: some but not all members accepted.",
-		Budget{Checks: 6000, Shards: 1}, Budget{Checks: 40000, Shards: 8}, genItCase, checkItCase)
+		Budget{Checks: 6000, Shards: 1}, Budget{Checks: 40000, Shards: 16}, genItCase, checkItCase)
 	RegisterEnum("C15_boundaries",
 		"enumeration: Combinations/CombinationsColex for all n <= 7 (thorough 9), k <= n+3; Permutations, LexicographicPermutations, IntegerPartitions for all n <= 6 (8); Partitions for 1 <= n <= 6 (8); MultisetCombinations (all k <= total+1) and MultisetPermutations for every multiplicity vector of length <= 3 over {0,1,2}; Product for every factor vector of length <= 3 over {-1,0,1,2,3}. Same oracle as C15_generated.",
 		true, Budget{Shards: 1}, Budget{Shards: 1}, enumItBoundaries, checkItCase)
